@@ -201,9 +201,25 @@ def compute_slots(repo, col, rule: str, emit=("jaxedges", "rec_index", "external
     stores = [s for s in ex.stores if s.kind == "sub" and s.base.op == "attr" and s.base.name == "external_inds"]
     if not stores:
         raise AnalysisError("Module._external_input no longer stores external_inds")
+    from sa.terms import canon as _canon
+
+    def _alts(t, guards):
+        """a stored value that is a conditional is one virtual store per alternative"""
+        if t.op == "ifexp":
+            return _alts(t.args[1], guards + (t.args[0],)) + _alts(t.args[2], guards + (T("not", None, [t.args[0]]),))
+        return [(guards, t)]
+
+    class _VS:
+        def __init__(self, s_, guards, value):
+            self.node, self.guards, self.value = s_.node, guards, value
+
+    vstores = []
+    for s_ in stores:
+        for g_, v_ in _alts(_canon(s_.value), tuple(s_.guards)):
+            vstores.append(_VS(s_, g_, v_))
     for kc in KCS:
         defining, extending = [], []
-        for s in stores:
+        for s in vstores:
             if not reachable(s.guards, kc):
                 continue
             v = s.value
